@@ -246,6 +246,10 @@ def member_class(pkg):
             for k in range(int(n_points)):
                 p = [W.fresh('ms%d' % self.mid) for _ in range(self.n_dim)]
                 W.assume(self._contains1(p))
+                if getattr(W, 'opts', {}).get('members_in_cube'):
+                    for x in p:
+                        W.assume(x >= 0)
+                        W.assume(x < 1)
                 rows.append(p)
             self.sampled += int(n_points)
             return np.array(rows, dtype=float) if rows else \
